@@ -796,15 +796,31 @@ def guards(food, rep):
     rule = "C11.GUARD"
     FOOD_METHODS.clear()
     FOOD_METHODS.update(food)
+    # accessors: a method that reads the numbers of one operand only (none of self's, no second operand) combines nothing - it hands that
+    # operand's numbers back; a call of it with an operand counts, in the caller, as a read of that operand's numbers
+    ACCESSORS.clear()
+    for name, fn in food.items():
+        if any(isinstance(d, ast.Name) and d.id == "staticmethod" for d in fn.decorator_list):
+            continue
+        params = [a.arg for a in fn.args.args if a.arg != "self"]
+        lane_bases = {node.value.id for node in walk_no_nested(fn) if isinstance(node, ast.Attribute) and node.attr in LANES
+                      and isinstance(node.value, ast.Name)}
+        if len(lane_bases) == 1 and next(iter(lane_bases)) in params:
+            ACCESSORS[name] = params.index(next(iter(lane_bases)))
     for name, fn in food.items():
         params = [a.arg for a in fn.args.args if a.arg != "self"]
         if any(isinstance(d, ast.Name) and d.id == "staticmethod" for d in fn.decorator_list):
             params = [a.arg for a in fn.args.args]
+        if name in ACCESSORS:
+            rep.info(rule, f"Food.{name}: reads one operand's numbers only (accessor); its callers carry the guard obligation")
+            continue
         readers = {}
         for node in walk_no_nested(fn):
             if isinstance(node, ast.Attribute) and node.attr in LANES and isinstance(node.value, ast.Name) \
                     and node.value.id in params and node.value.id != "self":
                 readers.setdefault(node.value.id, []).append(node)
+            if isinstance(node, ast.Call) and _accessor_operand(node) in params and _accessor_operand(node) != "self":
+                readers.setdefault(_accessor_operand(node), []).append(node)
         if not readers:
             # the operand may be handed to a helper of the class that reads its numbers: that helper is judged under its own name
             for c in walk_no_nested(fn):
@@ -875,9 +891,23 @@ def is_unit_assert(st, p, method, fn=None, depth=0):
     return False
 
 
+ACCESSORS = {}
+
+
+def _accessor_operand(call):
+    """name handed to an accessor method (self.<accessor>(..., name, ...)) at the accessor's operand position, else None"""
+    if isinstance(call.func, ast.Attribute) and isinstance(call.func.value, ast.Name) and call.func.value.id == "self" and call.func.attr in ACCESSORS:
+        i = ACCESSORS[call.func.attr]
+        if i < len(call.args) and isinstance(call.args[i], ast.Name):
+            return call.args[i].id
+    return None
+
+
 def _reads(node, p):
     for n in ast.walk(node):
         if isinstance(n, ast.Attribute) and n.attr in LANES and isinstance(n.value, ast.Name) and n.value.id == p:
+            return True
+        if isinstance(n, ast.Call) and _accessor_operand(n) == p:
             return True
     return False
 
@@ -1017,6 +1047,11 @@ class BoolAbs:
             return ("not", self.expr(e.operand, env))
         if isinstance(e, ast.Constant) and isinstance(e.value, bool):
             return ("const", e.value)
+        if isinstance(e, ast.IfExp):
+            cond = self.expr(e.test, env)
+            if _is_const(cond):
+                return self.expr(e.body if evalf(cond, {}) else e.orelse, env)
+            return ("ite", cond, self.expr(e.body, env), self.expr(e.orelse, env))
         if isinstance(e, ast.Name):
             if e.id in env:
                 return env[e.id]
